@@ -48,6 +48,7 @@ func allRules() []*Rule {
 		ruleR34(),
 		ruleR35(),
 		ruleR36(),
+		ruleR37(),
 		ruleR21(),
 		ruleR22(),
 		ruleR23(),
